@@ -200,6 +200,12 @@ let () =
             let o = next_int () in let r = next_int () in let s = read_str () in
             print_endline (pr_res (parse_all (oracle o) !g !fuel (n_of_int r) s))
           | "CACHE" -> print_endline (run_cache ())
+          | "CORECLS" ->
+            List.iter (fun (nm, cls) ->
+                Printf.printf "%s %s\n" (str_to_string (s_of nm))
+                  (String.concat "," (List.map (fun (a, b) -> Printf.sprintf "%d-%d" (int_of_n a) (int_of_n b)) cls))) b1_classes;
+            print_endline "END"
+          | "RRFC" -> (match r_rfc () with Some r -> reg_state := r; print_endline "RRFC OK" | None -> print_endline "RRFC ERR")
           | "RRESET" -> reg_state := boot_reg ()
           | "RCREATE" ->  (* RCREATE route cls text : route 0 = spec reader, 1 = library model (engine+visitor) *)
             let route = next_int () in let c = next_int () in let t = read_str () in
